@@ -57,3 +57,17 @@ Lemma fista_stop_rule_witness :
   fista_new Qops fw_UtM fw_UtU 1 true 0 0 (1 # 3) 0 [[3]; [0]]%Q = [[3]; [0]]%Q /\
   fista_grad Qops fw_UtM fw_UtU 1 0 0 [[3]; [0]]%Q = [[0]; [0]]%Q.
 Proof. repeat split; vm_compute; reflexivity. Qed.
+
+(* ---------------------------------------------------------------------------------------------- *)
+(* hals_nnls with nonzero_rows = True is NOT monotone and its fixed points are not the KKT points (by design: the
+   safety procedure refuses zero rows).  UtU = I, UtM = (1, -1): the optimum (1, 0) is a fixed point of the pass with
+   nonzero_rows = False, and is moved to (1, meps * 1) with nonzero_rows = True (meps = 1/8 here for readability),
+   which raises the objective x'x/2 - b'x from -1/2 to -1/2 + 1/8 + 1/128. *)
+Definition nzw_UtU : list (list Q) := [[1; 0]; [0; 1]]%Q.
+Definition nzw_UtM : list (list Q) := [[1]; [-1]]%Q.
+Definition nzw_V : list (list Q) := [[1]; [0]]%Q.
+Lemma hals_nonzero_rows_witness :
+  hals_pass Qops nzw_UtM nzw_UtU 1 (mkH None None false 0 (1 # 8))%Q nzw_V = nzw_V /\
+  hals_pass Qops nzw_UtM nzw_UtU 1 (mkH None None true 0 (1 # 8))%Q nzw_V = [[1]; [1 # 8]]%Q /\
+  kkt_grad Qops nzw_UtM nzw_UtU 1 0 0 nzw_V = [[0]; [1]]%Q.
+Proof. repeat split; vm_compute; reflexivity. Qed.
